@@ -16,7 +16,7 @@ import (
 )
 
 func init() {
-	fw.Register(&fw.Check{ID: "C14", Level: "exploration", Run: runC14, QuickBudget: 90, ThoroughBudget: 900})
+	fw.Register(&fw.Check{ID: "C14", Level: "exploration", Run: runC14, QuickBudget: 300, ThoroughBudget: 1200})
 }
 
 type c14Layout struct {
@@ -29,7 +29,7 @@ func runC14(c *fw.Ctx) {
 	maxComp := c.Pick(2, 3)
 	c.Bound("components", comps)
 	c.Bound("max_components", maxComp)
-	c.SetRule("names = every sequence of <= max_components components (quick adds all 3-component names starting with refs) joined by '/' and by '\\\\', also with a leading '/'; x 9 storage operations (Reference, SetReference, CheckAndSetReference, RemoveReference, IterReferences, PackRefs, Reflog, AppendReflog, DeleteReflog) run in sequence on a fresh mcfs repository x 3 layouts (plain; .git/refs a symlink to ../../outside/refs; .git/logs a symlink); oracle = the mcfs journal of EVERY call (reads included, paths after symlink resolution): each touched path lies in the resolved refs/ or logs/ hierarchy, packed-refs (+ its temp file), an ALL-CAPS pseudo-ref slot of .git, or in the set a benign name (refs/heads/ok) touches on the same layout; sentinel files (config, index, an object, /outside/x, a worktree file) are byte-identical afterwards; and every name with a component that folds to '.' or '..' on HFS+/NTFS (ignorable code points, trailing dots/spaces) is refused by every name-taking operation; distinct = (operation, accepted/refused, layout, touched-path set) classes")
+	c.SetRule("names = every sequence of <= max_components components (quick adds all 3-component names starting with refs) joined by '/' and by '\\\\', also with a leading '/'; plus tier 2: the component .. and 75 disguises of it (each of the 16 HFS+-ignorable code points before / between / after / around the dots, NTFS trailing dot-and-space runs and ':stream' suffixes) in 14 contexts (top level, 1..5 levels below refs/, climbs that reach config, index, logs, objects, the worktree and /outside) and 20 letter-case variants of refs/logs/config/index/HEAD/objects in 9 contexts; x 10 storage operations (Reference, SetReference with a hash and with a symbolic value, CheckAndSetReference, RemoveReference, IterReferences, PackRefs, Reflog, AppendReflog, DeleteReflog) run in sequence on a fresh mcfs repository x 3 layouts (plain; .git/refs a symlink to ../../outside/refs; .git/logs a symlink); oracle = the mcfs journal of EVERY call (reads included, paths after symlink resolution): each touched path lies in the resolved refs/ or logs/ hierarchy, packed-refs (+ its temp file), an ALL-CAPS pseudo-ref slot of .git, or in the set a benign name (refs/heads/ok) touches on the same layout; sentinel files (config, index, an object, /outside/x, a worktree file) are byte-identical afterwards; and every name with a component that folds to '.' or '..' on HFS+/NTFS (ignorable code points, trailing dots/spaces) is refused by every name-taking operation; distinct = (operation, accepted/refused, layout, touched-path set) classes")
 	c.Assume("mcfs resolves symlinks without confinement (classic OS semantics) and is case-sensitive; replayed against osfs each run")
 	n, err := mcfs.Conformance(c.Scratch(), 2)
 	c.Must(err, "mcfs/osfs conformance")
@@ -66,6 +66,31 @@ func runC14(c *fw.Ctx) {
 			add(parts[0] + "/" + strings.Join(parts[1:], "\\"))
 		}
 	}
+	// Tier 2: components that are too many for the full product, each placed in fixed contexts (shallow, deep, at
+	// the top level, and as a climb long enough to reach config / the worktree / the directory outside).
+	hfsIgn := []rune{0x200c, 0x200d, 0x200e, 0x200f, 0x202a, 0x202b, 0x202c, 0x202d, 0x202e, 0x206a, 0x206b, 0x206c, 0x206d, 0x206e, 0x206f, 0xfeff}
+	disguises := []string{"..", "..  ", ".. .", "....", ".. . ", "..:", "..:x", "..:$DATA", ".. :x", "..::$DATA", "...:x", ".. .:x"}
+	for _, u := range hfsIgn {
+		x := string(u)
+		disguises = append(disguises, x+"..", "."+x+".", ".."+x, x+"."+x+"."+x)
+	}
+	for _, d := range disguises {
+		up := strings.Repeat(d+"/", 6)
+		for _, n := range []string{"refs/heads/" + d, "refs/heads/" + d + "/x", "refs/" + d + "/x", "refs/" + d + "/" + d + "/config", d + "/x", d,
+			"refs/heads/a/b/" + d, "refs/heads/a/b/c/d/" + d + "/x", "refs/heads/a/b/" + d + "/" + d + "/" + d + "/" + d + "/config",
+			"refs/heads/a/b/" + d + "/" + d + "/" + d + "/" + d + "/index", "refs/heads/" + up + "outside/x", "refs/heads/" + up + "wt/file",
+			"refs/heads/a/" + d + "/" + d + "/" + d + "/logs/HEAD", "refs/heads/a/" + d + "/" + d + "/" + d + "/objects/11/sentinel"} {
+			add(n)
+		}
+	}
+	caseVar := []string{"Refs", "REFS", "rEFS", "Logs", "LOGS", "CONFIG", "Config", "INDEX", "Index", "Head", "head", "hEAD", "OBJECTS", "Objects", "PACKED_REFS", "Packed-Refs", "FETCH_HEAD", "fetch_head", "ORIG_head", "Heads"}
+	for _, v := range caseVar {
+		for _, n := range []string{v, v + "/heads/x", v + "/x", v + "/HEAD", "refs/" + v, "refs/" + v + "/x", "refs/heads/" + v, v + "/../config", "refs/../" + v} {
+			add(n)
+		}
+	}
+	c.Bound("tier2_disguise_components", len(disguises))
+	c.Bound("tier2_case_variants", caseVar)
 	c.Bound("names", len(names))
 
 	h1 := plumbing.NewHash("1111111111111111111111111111111111111111")
@@ -107,6 +132,9 @@ func runC14(c *fw.Ctx) {
 		}},
 		{"CheckAndSetReference", func(st *filesystem.Storage, n plumbing.ReferenceName) error {
 			return st.CheckAndSetReference(plumbing.NewHashReference(n, h2), plumbing.NewHashReference(n, h1))
+		}},
+		{"SetSymbolicReference", func(st *filesystem.Storage, n plumbing.ReferenceName) error {
+			return st.SetReference(plumbing.NewSymbolicReference(n, "refs/heads/main"))
 		}},
 		{"AppendReflog", func(st *filesystem.Storage, n plumbing.ReferenceName) error { return st.AppendReflog(n, entry) }},
 		{"Reflog", func(st *filesystem.Storage, n plumbing.ReferenceName) error { _, err := st.Reflog(n); return err }},
@@ -211,6 +239,7 @@ func runC14(c *fw.Ctx) {
 		// maps to "." or ".." could resolve elsewhere although mcfs itself keeps it literal.
 		mustRefuse := func(name string) bool {
 			for _, comp := range strings.FieldsFunc(name, func(r rune) bool { return r == '/' || r == '\\' }) {
+				// HFS+ drops the ignorable code points and nothing else
 				var sb strings.Builder
 				for _, r := range comp {
 					switch {
@@ -219,8 +248,15 @@ func runC14(c *fw.Ctx) {
 						sb.WriteRune(r)
 					}
 				}
-				n := strings.TrimRight(sb.String(), " .")
-				if sb.String() == ".." || sb.String() == "." || (n == "" && sb.Len() > 0 && strings.Contains(sb.String(), ".")) {
+				if sb.String() == ".." || sb.String() == "." {
+					return true
+				}
+				// NTFS drops trailing dots and spaces, and ":stream" addresses a data stream OF the file before it
+				nt := comp
+				if k := strings.IndexByte(nt, ':'); k > 0 {
+					nt = nt[:k]
+				}
+				if strings.TrimRight(nt, " .") == "" && strings.Contains(nt, ".") {
 					return true
 				}
 			}
